@@ -10,6 +10,11 @@ Correspondence (model driver vs the real code, same inputs):
                                            `DesignMatrix.write_csv`, `dmtx_from_csv`, paradigm files
   parwrite / parload / parconds            `write_to_csv`, `load_paradigm_from_csv_file`,
                                            conditions handed to `compute_regressor`
+  convnames                                `_convolve_regressors`: oversampling handed on, names in order
+  mkdrift                                  `_make_drift` for every drift model (mixed case, unknown): columns, names
+  hrflen / gammahrf / dkernel              `_gamma_difference_hrf` (length, difference + normalisation of the
+                                           observed gamma densities), the three derivative kernels
+  fullrank                                 `_full_rank` on the singular values (branch, condition number, new values)
 Oracle: the property clauses evaluated directly on the real code.
 """
 from __future__ import annotations
@@ -105,12 +110,15 @@ class C07(PropertyCheck):
     title = "Design-matrix regressors are linear, causal and shift-consistent"
     lean_modules = ["NipyVerif.Props.C07", "NipyVerif.Props.C07Grid", "NipyVerif.Props.C07Csv",
                     "NipyVerif.Props.C07Par", "NipyVerif.Props.C07Names", "NipyVerif.Props.C07Source",
-                    "NipyVerif.Props.C07Drift"]
+                    "NipyVerif.Props.C07Drift", "NipyVerif.Props.C07Expr", "NipyVerif.Props.C07Mk"]
     driver = "Drivers/C07.lean"
     rule = ("cases are (frame grid incl. start/dtype, oversampling, min_onset, paradigm, hrf model, drift, "
             "user regressors, names) tuples from a seeded PRNG, plus paradigm files (1-3 sessions) and "
             "design matrices with adversarial column names; non-trivial = at least two events, or a "
-            "multi-kernel/fir model, or a start != 0, or a drift of order >= 2, or a refusal branch; "
+            "multi-kernel/fir model, or a start != 0, or a drift of order >= 2, or a refusal branch; kernels with "
+            "rarely used arguments (time_length, onset, delays, dispersions, ratio), drift blocks of every model "
+            "name (mixed case / unknown), small matrices for _full_rank (rank deficient, badly scaled, equal "
+            "singular values; C / Fortran / strided) with cmax from 1.5 to 1e15; "
             "distinct by full JSON of the case. Paradigm files use plain condition names "
             "[A-Za-z0-9_.-] (the loader guesses the dialect); design-matrix CSV names range over all "
             "characters incl. quotes, delimiters, blanks, line breaks, the empty name")
@@ -124,7 +132,15 @@ class C07(PropertyCheck):
         "evaluates (Props/C07Drift, tied to the text by cosine_source_as_modelled); np.cos, np.sqrt and "
         "floating-point summation are parameters: the arrays the code returns are compared numerically with that "
         "statement (1e-9)",
-        "kernel sums and the repr/float round trip of CSV values are checked numerically by the oracle, not proved",
+        "kernel sums: proved on the model for any densities (Props/C07Mk.gamma_hrf_sums_to_one, hypothesis: the "
+        "un-normalised sum is not zero — true for every TR / oversampling generated, checked per case); the float "
+        "summation of the implementation is compared to 1e-9",
+        "the repr/float round trip of CSV values is Python's guarantee (checked numerically by the oracle, not proved)",
+        "np.linalg.svd is a parameter of _full_rank: the singular values the implementation computes are handed to "
+        "the model (test c < cmax, shift lda, new values); zero singular values take the regularising branch "
+        "(float smax / 0 = inf)",
+        "the `onset` argument of the kernel functions shifts the time stamps by onset / dt as written; onsets that "
+        "move the whole response out of the window (all densities zero, 0/0) are outside the property",
         "csv.Sniffer (used by load_paradigm_from_csv_file, and by dmtx_from_csv as a fall-back) is external: the "
         "dialect the implementation handed to csv.reader is observed and given to the model's reader",
         "a CSV record containing line breaks inside quotes spans several physical lines which csv.reader joins; the "
@@ -133,9 +149,25 @@ class C07(PropertyCheck):
     level_note = ("proved for all inputs: superposition / causality / whole-scan shift end to end from the frame "
                   "times (any start, TR, oversampling, min_onset <= 0), grid step and frame times on the grid, fir "
                   "0/amplitude rows, Gram-Schmidt orthogonality (polynomial drift), CSV parse(format) = id over all "
-                  "characters, paradigm write/load round trip, exact uniqueness precondition of the column names. "
-                  "Cosine drift: the columns the source evaluates (expressions regenerated from the text) are proved orthonormal and orthogonal to the constant over the reals (DCT-II, Mathlib Real.cos) for every run length and order <= n; np.cos / np.sqrt / float summation are parameters (numeric oracle). Numeric only: gamma kernels (parameters), kernel sums, float repr "
-                  "round trip, pinv-based orthogonalisation on ill-conditioned columns, csv.Sniffer")
+                  "characters, paradigm write/load round trip, exact uniqueness precondition of the column names; "
+                  "every condition yields kernelCount columns in condition order (column i*K+j = basis j of "
+                  "condition i, fir: <cond>_delay_<d_j>) for every hrf model / fir_delays; drift block of every "
+                  "model: polynomial order+1 columns, last one the column of ones, raw entries in [-1, 1]; cosine "
+                  "between 1 and n columns when hfcut >= 2 dt; names = columns, 'constant' exactly once, last; "
+                  "kernels: hrf /= hrf.sum() sums to one and the three derivative kernels sum to zero for whatever "
+                  "gamma densities (parameters); _full_rank: after regularisation smax'/smin' = cmax exactly, shift "
+                  ">= 0. Source tie: the sampling-grid, kernel, drift, oversampling and _full_rank expressions are "
+                  "regenerated from the text as Lean terms (Gen/C07Expr) and proved equal to the model's definitions "
+                  "(Props/C07Expr, 14 *_as_modelled theorems). "
+                  "Cosine drift: the columns the source evaluates (expressions regenerated from the text) are proved "
+                  "orthonormal and orthogonal to the constant over the reals (DCT-II, Mathlib Real.cos) for every run "
+                  "length and order <= n; np.cos / np.sqrt / float summation are parameters (numeric oracle). "
+                  "Parameters, compared numerically only: gamma densities (scipy), SVD of _full_rank (singular values "
+                  "handed to the model), float repr round trip of CSV values (Python's repr guarantee), pinv-based "
+                  "orthogonalisation on ill-conditioned columns (rcond cut-off has no exact counterpart), csv.Sniffer "
+                  "(external heuristic; the dialect it returns is observed). Not proved: that no *other* polynomial "
+                  "drift column is constant at the value level (needs linear independence of the monomials on the "
+                  "frame times); names carry the statement")
     finding_keys = {}
 
     # ------------------------------------------------------------------ tie (a): source text -> Lean
@@ -162,13 +194,16 @@ class C07(PropertyCheck):
         for tr in G.EXACT_TRS[:6] + [2.5, 0.8, 1.1]:
             for os_ in ([16] if q else [1, 4, 16, 32]):
                 cases.append({"kind": "kernel", "tr": tr, "os": os_})
+        cases += G.gen_hrfk(rng, 60 if q else 800)
+        cases += G.gen_mkdrift(rng, 120 if q else 1500)
+        cases += G.gen_fullrank(rng, 120 if q else 1500)
         for k in range(2 if q else 8):
             cases.append({"kind": "show", "ncols": 1 + k % 4, "n": 5 + k, "rescale": k % 2 == 0})
         # interleave the kinds (the harness reports the first few failures in case order)
         by = {}
         for cs in cases:
             by.setdefault(cs["kind"], []).append(cs)
-        order = ["regressor", "paradigm", "csv", "dmtx", "sample", "polydrift", "kernel", "show"]
+        order = ["regressor", "paradigm", "csv", "dmtx", "sample", "polydrift", "mkdrift", "fullrank", "hrfk", "kernel", "show"]
         out, k = [], 0
         while any(by.get(kd) for kd in order):
             for kd in order:
@@ -229,8 +264,10 @@ class C07(PropertyCheck):
                 j = int(np.nonzero(tot != reg)[0][0])
                 fail = (f"_sample_condition not additive: regressor[{j}]={reg[j]} but the amplitude-weighted "
                         f"sum of single-event regressors is {tot[j]}")
-            elif np.any(reg[:first] != 0):
+            elif np.any(reg[:first] != 0) and not c.get("negdur"):
                 fail = f"_sample_condition non-zero before first onset index {first}"
+            if c.get("negdur"):
+                tags.append("negative-duration")
             tags.append("coincident" if len(set(c["onsets"])) < len(c["onsets"]) else "distinct-onsets")
             if min(c["onsets"]) < c["t0"] + c["min_onset"]:
                 tags.append("pre-scan")
@@ -391,12 +428,28 @@ class C07(PropertyCheck):
             add = rs.randint(-4, 5, size=(n + a.get("rows_off", 0),)).astype(float)
         else:
             add = rs.randint(-4, 5, size=(n + a.get("rows_off", 0), a["ncols"])).astype(float)
+        lay = c.get("add_layout", "float64")
+        if add is not None:
+            if lay in ("int64", "int8", "float32"):
+                add = add.astype(lay)
+            elif lay == "F" and add.ndim == 2:
+                add = np.asfortranarray(add)
+            elif lay == "strided":
+                buf = np.zeros((2 * add.shape[0],) + add.shape[1:]); buf[::2] = add; add = buf[::2]
+            elif lay == "readonly":
+                add.setflags(write=False)
+        fk = c.get("fir_kind", "list")
+        fir_arg = c["fir_delays"]
+        if fk == "tuple":
+            fir_arg = tuple(fir_arg)
+        elif fk.endswith("-array"):
+            fir_arg = np.array(fir_arg, dtype=fk[:-6])
         addn = c["add_names"]
         kw = {}
         if c["use_min_onset"]:
             kw["min_onset"] = c["min_onset"] if c["min_onset"] <= 0 else -24
         snap = Snapshot(ft=ft, add=add if add is not None else 0, addn=addn if addn is not None else 0,
-                        fd=c["fir_delays"])
+                        fd=fir_arg)
         hrf_l, drift_l = c["hrf"].lower(), c["drift"].lower()
         # model line
         sh = "none" if add is None else f"some {add.shape[0]} {add.size}"
@@ -415,7 +468,7 @@ class C07(PropertyCheck):
             not (pow2 and c["exact"])
         tags = ["dmtx", "drift=" + drift_l, "hrf=" + hrf_l.replace(" ", "_"), "ptype=" + c["ptype"],
                 "add=" + a["mode"] + ("-badrows" if a.get("rows_off") else ""),
-                "addnames=" + ("none" if addn is None else "given")]
+                "addnames=" + ("none" if addn is None else "given"), "add-layout=" + lay, "fir-delays=" + fk]
         if c["paradigm_none"]:
             tags.append("paradigm-none")
         if c["t0"] != 0:
@@ -424,12 +477,12 @@ class C07(PropertyCheck):
         try:
             try:
                 if c["light"]:
-                    X, names = dm.dmtx_light(ft, par, c["hrf"], c["drift"], c["hfcut"], c["order"], c["fir_delays"],
+                    X, names = dm.dmtx_light(ft, par, c["hrf"], c["drift"], c["hfcut"], c["order"], fir_arg,
                                              add, addn, path=os.path.join(tmp, "light.csv"), **kw)
                     d = dm.DesignMatrix(X, names, ftf)
                     tags.append("dmtx_light")
                 else:
-                    d = dm.make_dmtx(ft, par, c["hrf"], c["drift"], c["hfcut"], c["order"], c["fir_delays"],
+                    d = dm.make_dmtx(ft, par, c["hrf"], c["drift"], c["hfcut"], c["order"], fir_arg,
                                      add, addn, **kw)
             except Exception as e:
                 mut = snap.changed()
@@ -484,8 +537,9 @@ class C07(PropertyCheck):
                         fail = f"polynomial drift columns not mutually orthogonal (max off-diag {np.abs(off).max()})"
             # conditions handed to compute_regressor, observed at make_dmtx's own calls
             if par is not None and hrf_l in HRFS:
-                l2, i2 = self._conds_lines(dm, par, pspec, hrf_l, ftf, c["fir_delays"])
+                l2, i2, f2 = self._conds_lines(dm, par, pspec, hrf_l, ftf, c["fir_delays"])
                 lines += l2; impl += i2
+                fail = fail or f2
             # CSV: text layer tie + round trip
             l3, i3, f3, t3 = self._csv_roundtrip(dm, d, tmp)
             lines += l3; impl += i3; tags += t3
@@ -502,20 +556,44 @@ class C07(PropertyCheck):
         seen = []
         orig = dm.compute_regressor
 
+        kws, regs = [], []
+
         def spy(exp_condition, hrf_model, frametimes, con_id='cond', **kw):
             on, du, am = (np.asarray(x, dtype=float) for x in exp_condition)
             seen.append((str(con_id), on.tolist(), du.tolist(), am.tolist()))
-            return orig(exp_condition, hrf_model, frametimes, con_id=con_id, **kw)
+            kws.append(kw.get("oversampling"))
+            r = orig(exp_condition, hrf_model, frametimes, con_id=con_id, **kw)
+            regs.append((np.array(as_cols(r[0], len(frametimes))), list(r[1])))
+            return r
 
         dm.compute_regressor = spy
         try:
-            dm._convolve_regressors(par, hrf_l, ftf, fir_delays)
+            rmat, hnames = dm._convolve_regressors(par, hrf_l, ftf, fir_delays)
         except Exception as e:
-            return [f"parconds {self._par_line(pspec)}"], [("err", errname(e))]
+            return [f"parconds {self._par_line(pspec)}"], [("err", errname(e))], None
         finally:
             dm.compute_regressor = orig
         txt = " ; ".join(f"{ustr(cid)} {events_plain((on, du, am))}" for cid, on, du, am in seen)
-        return [f"parconds {self._par_line(pspec)}"], [("text", txt)]
+        lines, impl, fail = [f"parconds {self._par_line(pspec)}"], [("text", txt)], None
+        if seen and len(set(kws)) == 1 and kws[0] is not None and all(int(d) == d and d >= 0 for d in fir_delays):
+            # `convnames`: oversampling handed to compute_regressor and the names, in order
+            lines.append(f"convnames {ustr(hrf_l)} {pstrs([str(x) for x in pspec[1]])} "
+                         f"{plist([int(d) for d in fir_delays])}")
+            impl.append(("text", f"{kws[0]} {pstrs([str(x) for x in hnames])}"))
+            # documented order of the columns (Props/C07Mk.convolve_column_position): the block of
+            # condition i is what compute_regressor returned for it, names likewise
+            rmat = as_cols(rmat, len(ftf))
+            k0 = 0
+            for i, (reg, nms) in enumerate(regs):
+                k1 = k0 + reg.shape[1]
+                if list(hnames[k0:k1]) != nms or not np.array_equal(rmat[:, k0:k1], reg, equal_nan=True):
+                    fail = (f"_convolve_regressors({hrf_l}): columns {k0}..{k1 - 1} are not the regressors of "
+                            f"condition {seen[i][0]!r} in compute_regressor's order (names {list(hnames[k0:k1])} vs {nms})")
+                    break
+                k0 = k1
+            if fail is None and k0 != rmat.shape[1]:
+                fail = f"_convolve_regressors({hrf_l}): {rmat.shape[1]} columns for {k0} regressors"
+        return lines, impl, fail
 
     def _csv_roundtrip(self, dm, d, tmp):
         """write_csv -> dmtx_from_csv: format / parse tied to the model, round trip as oracle"""
@@ -764,6 +842,181 @@ class C07(PropertyCheck):
                 "nontrivial": c["order"] >= 2, "tags": ["polydrift"] + ([] if well else ["polydrift-ill-conditioned"]),
                 "mutated": mut}
 
+    # ------------------------------------------------------------------ kernels from their pieces
+    def _hrfk(self, c, hm):
+        """`_gamma_difference_hrf` / derivative kernels: the gamma densities (scipy) are observed at the
+        implementation's own calls and handed to the model, which forms the difference, normalises and takes
+        the finite differences (Props/C07Mk: sum one / sum zero)"""
+        tr, os_, tl, onset, which = c["tr"], c["os"], c["time_length"], c["onset"], c["which"]
+        pdfs, kernels = [], []
+        g_orig, spm_orig, glo_orig, gd_orig = hm.gamma, hm.spm_hrf, hm.glover_hrf, hm._gamma_difference_hrf
+
+        class GammaSpy:
+            @staticmethod
+            def pdf(x, *a, **kw):
+                v = g_orig.pdf(x, *a, **kw)
+                pdfs.append(np.array(v, dtype=float))
+                return v
+
+        def wrap(f):
+            def g(*a, **kw):
+                h = f(*a, **kw)
+                kernels.append(np.array(h, dtype=float))
+                return h
+            return g
+
+        lines, impl, fail, tags = [], [], None, ["hrfk", "which=" + which]
+        try:
+            hm.gamma = GammaSpy
+            if which == "gamma":
+                h = hm._gamma_difference_hrf(tr, os_, tl, onset, c["delay"], c["undershoot"], c["dispersion"],
+                                             c["u_dispersion"], c["ratio"])
+                ratio = c["ratio"]
+            elif which in ("spm", "glover"):
+                h = (hm.spm_hrf if which == "spm" else hm.glover_hrf)(tr, os_, tl, onset)
+                ratio = 0.167 if which == "spm" else 0.35
+            else:
+                hm.spm_hrf, hm.glover_hrf = wrap(spm_orig), wrap(glo_orig)
+                hm._gamma_difference_hrf = wrap(gd_orig)
+                f = {"spm_time": hm.spm_time_derivative, "glover_time": hm.glover_time_derivative,
+                     "spm_disp": hm.spm_dispersion_derivative}[which]
+                h = f(tr, os_, tl, onset)
+        except Exception as e:
+            return {"lines": [], "impl": [], "nontrivial": True, "tags": tags + ["raised"],
+                    "oracle": f"{which} kernel raised {type(e).__name__}: {e} (tr={tr}, oversampling={os_}, "
+                              f"time_length={tl}, onset={onset})"}
+        finally:
+            hm.gamma, hm.spm_hrf, hm.glover_hrf, hm._gamma_difference_hrf = g_orig, spm_orig, glo_orig, gd_orig
+        h = np.asarray(h, dtype=float)
+        # number of time stamps: int(float(time_length) / dt), dt = tr / oversampling (a float)
+        dt = tr / os_
+        q = Fraction(float(tl)) / Fraction(float(dt))
+        if abs(q - round(q)) > Fraction(1, 10 ** 9) or float(tl) / dt == q:
+            lines.append(f"hrflen {fr(Fraction(float(dt)) * os_)} {os_} {fr(tl)}")
+            impl.append(("text", str(len(h))))
+        else:
+            tags.append("length-on-integer-boundary")
+        if not np.isfinite(h).all():
+            # an `onset` that moves the whole response out of the window (all densities zero) is outside
+            # the property (the design-matrix code only uses onset = 0 and the derivative steps)
+            outside = (onset + 0.1) / dt >= tl / 4
+            return {"lines": lines, "impl": impl, "nontrivial": True, "tags": tags + ["non-finite"],
+                    "oracle": None if outside else f"{which} kernel is not finite (tr={tr}, oversampling={os_}, "
+                                                   f"time_length={tl}, onset={onset})"}
+        if which in ("gamma", "spm", "glover"):
+            if len(pdfs) == 2:
+                lines.append(f"gammahrf {plist(pdfs[0])} {plist(pdfs[1])} {fr(ratio)}")
+                impl.append(("rats", h.tolist(), 1e-11))
+            if abs(h.sum() - 1) > 1e-9:
+                fail = (f"{which} kernel (tr={tr}, oversampling={os_}, time_length={tl}, onset={onset}) sums to "
+                        f"{h.sum()}, not 1")
+        else:
+            # the two kernels whose difference is taken, in the order of the source expression
+            base = [k for k in kernels]
+            if which == "spm_disp":
+                # _gamma_difference_hrf is also what spm_hrf calls: keep the outermost results
+                # (call order: _gamma_difference_hrf(dispersion) ; spm_hrf -> _gamma_difference_hrf)
+                base = [kernels[0], kernels[-1]]
+            if len(base) >= 2:
+                h1, h0 = base[0], base[-1]
+                step = 0.01 if which == "spm_disp" else 0.1
+                lines.append(f"dkernel {fr(step)} {plist(h1)} {plist(h0)}")
+                impl.append(("rats", h.tolist(), 1e-9 * max(1.0, float(np.abs(h).max()))))
+                if abs(h1.sum() - 1) > 1e-9 or abs(h0.sum() - 1) > 1e-9:
+                    fail = f"{which}: the kernels differenced sum to {h1.sum()} and {h0.sum()}, not 1"
+            if fail is None and abs(h.sum()) > 1e-8 * max(1.0, float(np.abs(h).sum())):
+                fail = (f"{which} (tr={tr}, oversampling={os_}, time_length={tl}, onset={onset}): the derivative "
+                        f"kernel sums to {h.sum()}, not 0")
+        return {"lines": lines, "impl": impl, "oracle": fail, "nontrivial": True, "tags": tags}
+
+    # ------------------------------------------------------------------ _make_drift, every model
+    def _mkdrift(self, c, hm):
+        from nipy.modalities.fmri import design_matrix as dm
+        n, model, order, hfcut = c["n"], c["model"], c["order"], c["hfcut"]
+        ft = c["t0"] + np.arange(n) * c["tr"]
+        snap = Snapshot(ft=ft)
+        ml = model.lower()
+        dt_ = ft[1] - ft[0]
+        line = f"mkdrift {ustr(model)} {n} {fr(dt_)} {fr(hfcut)} {order}"
+        tags = ["mkdrift", "model=" + (ml if ml in ("polynomial", "cosine", "blank") else "unknown")]
+        qcos = Fraction(2 * n) * Fraction(float(dt_)) / Fraction(float(hfcut))
+        hf = Fraction(float(hfcut))
+        pow2 = (hf.numerator & (hf.numerator - 1)) == 0 and (hf.denominator & (hf.denominator - 1)) == 0
+        fragile = ml == "cosine" and abs(qcos - round(qcos)) < Fraction(1, 10 ** 9) and not pow2
+        try:
+            drift, names = dm._make_drift(model, ft, order, hfcut)
+        except Exception as e:
+            known = ml in ("polynomial", "cosine", "blank")
+            fail = (f"_make_drift({model!r}, order={order}, hfcut={hfcut}) raised {type(e).__name__}: {e} for "
+                    f"{n} frames") if known else None
+            return {"lines": [line], "impl": [("err", errname(e))], "oracle": fail, "nontrivial": True,
+                    "tags": tags + ["refused"], "mutated": snap.changed()}
+        mut = snap.changed()
+        lines, impl = ([], []) if fragile else ([line], [("text", f"{drift.shape[1]} {pstrs(names)}")])
+        fail = None
+        if drift.shape != (n, len(names)):
+            fail = f"_make_drift({model!r}): block of shape {drift.shape} for {len(names)} names"
+        elif names.count("constant") != 1 or names[-1] != "constant":
+            fail = f"_make_drift({model!r}): the constant is not named exactly once, last: {names}"
+        elif not np.isfinite(drift).all():
+            fail = f"_make_drift({model!r}, order={order}, hfcut={hfcut}): block is not finite (frame times {ft.tolist()})"
+        elif not (np.all(drift[:, -1] == drift[0, -1]) and drift[0, -1] != 0):
+            fail = f"_make_drift({model!r}): the last column is not a non-zero constant"
+        elif ml == "polynomial" and drift.shape[1] != order + 1:
+            fail = f"_make_drift(polynomial, order={order}): {drift.shape[1]} columns, documented {order + 1}"
+        elif ml == "blank" and drift.shape[1] != 1:
+            fail = f"_make_drift(blank): {drift.shape[1]} columns"
+        elif ml == "cosine" and not (1 <= drift.shape[1] <= max(1, n)) and 2 * dt_ / hfcut <= 1:
+            fail = f"_make_drift(cosine, hfcut={hfcut}): {drift.shape[1]} columns for {n} frames"
+        elif sum(1 for j in range(drift.shape[1]) if np.ptp(drift[:, j]) <= 1e-12 * max(1.0, abs(drift[0, j]))) != 1 \
+                and n > 1 and drift.shape[1] <= n:
+            fail = f"_make_drift({model!r}, order={order}, hfcut={hfcut}): the block contains a second constant column"
+        return {"lines": lines, "impl": impl, "oracle": fail, "nontrivial": ml != "blank", "tags": tags, "mutated": mut}
+
+    # ------------------------------------------------------------------ _full_rank
+    def _fullrank(self, c, hm):
+        from nipy.modalities.fmri import design_matrix as dm
+        X = np.array(c["rows"], dtype=float)
+        if c["layout"] == "F":
+            X = np.asfortranarray(X)
+        elif c["layout"] == "strided":
+            buf = np.zeros((X.shape[0], 2 * X.shape[1])); buf[:, ::2] = X; X = buf[:, ::2]
+        cmax = 1e15 if c["default_cmax"] else c["cmax"]
+        snap = Snapshot(X=X)
+        s = np.linalg.svd(X, 0)[1]
+        tags = ["fullrank", "layout=" + c["layout"]]
+        try:
+            X2, c2 = dm._full_rank(X) if c["default_cmax"] else dm._full_rank(X, cmax)
+        except Exception as e:
+            return {"lines": [], "impl": [], "nontrivial": True, "tags": tags + ["raised"],
+                    "oracle": f"_full_rank raised {type(e).__name__}: {e} on {X.tolist()} (cmax={cmax})"}
+        mut = snap.changed()
+        X2 = np.asarray(X2, dtype=float)
+        kept = X2 is X or (X2.shape == X.shape and np.array_equal(X2, X) and float(c2) != float(cmax))
+        lines, impl = [], []
+        smax, smin = float(s.max()), float(s.min())
+        knife = smin != 0 and abs(smax / smin / cmax - 1) < 1e-9
+        if np.isfinite(X2).all() and not knife:
+            s2 = np.sort(np.linalg.svd(X2, 0)[1])[::-1]
+            lines.append(f"fullrank {plist(s)} {fr(cmax)}")
+            impl.append(("fullrank", "keep" if kept else "shift", float(c2), s2.tolist(), smax))
+        tags.append("kept" if kept else "regularised")
+        fail = None
+        if X2.shape != X.shape:
+            fail = f"_full_rank changed the shape {X.shape} -> {X2.shape}"
+        elif not np.isfinite(X2).all():
+            fail = f"_full_rank returned non-finite values for {X.tolist()} (cmax={cmax})"
+        elif not kept and cmax <= 1e6:
+            # Props/C07Mk.full_rank_condition: afterwards the condition number is cmax (when the extreme
+            # singular values differ)
+            cn = np.linalg.cond(X2)
+            if smax != smin and abs(cn / cmax - 1) > 1e-6:
+                fail = (f"_full_rank(cmax={cmax}) returned a matrix of condition number {cn} for singular values "
+                        f"{s.tolist()}")
+        elif kept and smin > 0 and smax / smin >= cmax * (1 + 1e-9):
+            fail = f"_full_rank(cmax={cmax}) left a matrix of condition number {smax / smin} unchanged"
+        return {"lines": lines, "impl": impl, "oracle": fail, "nontrivial": True, "tags": tags, "mutated": mut}
+
     def _kernel(self, c, hm):
         fail = None
         for f in (hm.spm_hrf, hm.glover_hrf):
@@ -823,6 +1076,27 @@ class C07(PropertyCheck):
             return None if model_out == val else f"impl raised {val}, model says {model_out[:120]}"
         if kind == "text":
             return None if model_out == val else f"impl={val[:300]} model={model_out[:300]}"
+        if kind == "rats":
+            if model_out.startswith(("error", "bad-op")):
+                return f"model says {model_out}"
+            return cmp_rats(val, model_out, 1e-9, impl_obs[2])
+        if kind == "fullrank":
+            _, flag, c2, s2, smax = impl_obs
+            if " | " not in model_out:
+                return f"model says {model_out[:120]}"
+            head, _, vals = model_out.partition(" | ")
+            mflag, mc = head.split()
+            if mflag != flag:
+                return f"impl branch {flag}, model branch {mflag}"
+            d = cmp_rats([c2], mc, 1e-9, 0)
+            if d:
+                return "condition number: " + d
+            ms = sorted(parse_rats(vals), reverse=True)
+            if len(ms) != len(s2):
+                return f"{len(s2)} singular values, model has {len(ms)}"
+            if not all_close(s2, ms, 1e-7, 1e-9 * max(1.0, smax)):
+                return f"singular values impl={s2} model={[float(x) for x in ms]}"
+            return None
         if kind == "cols":
             if model_out.startswith(("error", "bad-op")):
                 return f"model says {model_out}"
